@@ -5,6 +5,7 @@
      write0 <x..,x..>        -> same for the pinned writer
      conc <x..,x..;x..;...>  -> writers one after the other; the lines of the output sorted
      spec x<hex>             -> 1 iff the word is in the language of addr_spec (executable matcher)
+     evstr <offer|broker|failed> x<hex> -> hex of event_string: the String() of the event carrying an error with this text
      inclcex -               -> "included" or cex=<hex>: addr_spec ⊆ group 1 of the generated full pattern *)
 From Coq Require Import List NArith Bool Arith String.
 From Snow Require Import Lib.Wire Model.Regex Model.RegexIncl Model.Scrub Model.SafelogPinned Gen.SafelogPatterns.
@@ -41,6 +42,16 @@ Definition group1_of (r : re) : option re :=
 
 Definition run (args : list bytes) : bytes :=
   match args with
+  | [op; ty; a] =>
+      if beq op (bs "evstr") then
+        match payload_parse a with
+        | Some b =>
+            if beq ty (bs "offer") then hex_or_dash (event_string full_patterns 0 b)
+            else if beq ty (bs "broker") then hex_or_dash (event_string full_patterns 1 b)
+            else if beq ty (bs "failed") then hex_or_dash (event_string full_patterns 2 b)
+            else ERR_BADCASE
+        | None => ERR_BADCASE end
+      else ERR_BADCASE
   | [op; a] =>
       if beq op (bs "scrub") then
         match payload_parse a with Some b => hex_or_dash (scrub full_patterns b) | None => ERR_BADCASE end
